@@ -61,8 +61,8 @@ def oracle(ctx, U, idx, dist, k, lc, case, sig, rho, vals):
         # (a) zero-distance neighbours and the floor(lc) nearest non-zero ones have strength exactly 1
         nzpos = [j for j in range(kk) if row[j] > 0]
         full = [j for j in range(kk) if row[j] == 0 and nonself[j]]
-        if len(nzpos) >= lc:
-            full += [j for j in nzpos[:li] if nonself[j]]
+        # (with fewer than lc distinct neighbours available, all of them)
+        full += [j for j in nzpos[:li] if nonself[j] and np.isfinite(row[j])]
         for j in full:
             if v[j] != 1.0:
                 ctx.violation("local-connectivity", f"row {i} col {j} (dist {row[j]}): strength {v[j]} != 1", case)
